@@ -54,7 +54,9 @@ def run(F, res, tier):
 
 def lock_rules(F, res, w1="W1", w3="W3"):
     L = LK.LockFacts(F)
-    reach_apply = L.reaches({APPLY})
+    # both wait until every snapshot is gone (salsa's write lock); a snapshot's task may be waiting for the document store
+    WAITS = {APPLY, "ide::ide::AnalysisHost::request_cancellation"}
+    reach_apply = L.reaches(WAITS)
     res.analysed["functions_in_glas"] = sum(1 for p in F.fns if in_glas(p))
     res.analysed["lock_acquisitions"] = len([1 for f, b, t, a in L.acq_sites if in_glas(f.path)])
     # ---- W1 / W3
@@ -82,8 +84,8 @@ def lock_rules(F, res, w1="W1", w3="W3"):
                         s["bad"].append("re-acquires the same lock at %s" % f.loc(t["ln"]))
                 for x in tg:
                     if x in reach_apply:
-                        s["bad"].append("call at %s reaches AnalysisHost::apply_change via %s" % (f.loc(t["ln"]), " -> ".join(
-                            y.rsplit("::", 1)[-1] for y in L.why(x, {APPLY}))))
+                        s["bad"].append("call at %s waits for the snapshots (AnalysisHost::apply_change / request_cancellation) via %s" % (f.loc(t["ln"]), " -> ".join(
+                            y.rsplit("::", 1)[-1] for y in L.why(x, WAITS))))
                     for ty2, fs in L.may_acquire.items():
                         if x in fs:
                             order.add((ty, ty2, f.loc(t["ln"])))
@@ -97,7 +99,7 @@ def lock_rules(F, res, w1="W1", w3="W3"):
         if ty == "glas::vfs::Vfs":
             n_vfs += 1
         res.ob(w1, "%s/%s/%s/%d" % (p.replace("glas::", ""), ty.rsplit("::", 1)[-1].rstrip(">"), mode, ordn),
-               "while this %s guard of %s is live, no call can reach AnalysisHost::apply_change or take the same lock again"
+               "while this %s guard of %s is live, no call can reach AnalysisHost::apply_change / request_cancellation (both wait for every snapshot) or take the same lock again"
                % (mode, ty.rsplit("::", 1)[-1]), not s["bad"], where=f.loc(ln),
                how="%d calls inside the guard's live region, none offending" % s["calls"] if not s["bad"] else "; ".join(sorted(set(s["bad"]))[:3]))
     res.floor("guard acquisitions of the document store with a live region", n_vfs, 18)
@@ -542,3 +544,34 @@ def stale_diagnostics_are_dropped(F, res, rule="W15"):
         ok = ok and gated
     res.ob(rule, "publish/newest-only", "on_update_diagnostics records and publishes an internal list only after comparing the event's generation with the "
            "one stored for the open document (a stale list, or one for a closed document, is dropped)", ok, where=up.loc(), how="; ".join(how) or "no recording site found")
+    # (c) and nothing else keeps a list from the client: a decision after which the publisher can still be reached, but also the
+    #     return without it, is the stamp test (it depends on the open documents) or the kind of the event - not, say, "the list is
+    #     the one remembered", which is wrong once something else (didClose) has told the client otherwise
+    pubs = [b for b, t in up.calls() if FL.short(callee(t) or callee_def(t) or "").rsplit("::", 1)[-1] == "publish_diagnostics"]
+    rets = up.return_blocks()
+    skips = []
+    for b in sorted(up.reachable()):
+        t = up.term(b)
+        if t["k"] != "switch" or not pubs:
+            continue
+        succ = up.succ(b)
+        to_pub = [x for x in succ if x in pubs or up.can_reach(x, pubs)]
+        round_ = [x for x in succ if any(x == r or up.can_reach(x, [r], avoid=pubs) for r in rets) and x not in pubs]
+        if not (to_pub and round_ and set(to_pub) != set(round_)):
+            continue
+        deps = {str(x) for x in FL.fields_feeding(F, up, du, t["op"], "Server")}
+        o = du.origin_op(t["op"])
+        if o.get("k") == "rv" and o["rv"].get("k") == "bin":
+            for side in ("a", "b"):
+                if isinstance(o["rv"][side], dict) and "k" not in o["rv"][side]:
+                    deps |= {str(x) for x in FL.fields_feeding(F, up, du, o["rv"][side], "Server")}
+        if o.get("k") == "call":
+            for a in o["t"]["args"]:
+                deps |= {str(x) for x in FL.fields_feeding(F, up, du, a, "Server")}
+        is_event_kind = o.get("k") == "rv" and o["rv"].get("k") == "discr" and "CollectDiagnosticsEvent" in str(o["rv"].get("of"))
+        if "opened_files" in deps or is_event_kind:
+            continue
+        skips.append("line %s (depends on %s)" % (t.get("ln"), sorted(deps) or "nothing of the open documents"))
+    res.ob(rule, "publish/nothing-else-withheld", "between the event and publish_diagnostics only the stamp test (and the kind of the event) can take the way round "
+           "the publisher", bool(pubs) and not skips, where=up.loc(), how="publish sites %d; other ways round: %s" % (len(pubs), skips or "none"))
+
